@@ -14,6 +14,7 @@ const unixToInternal int64 = (1969*365 + 1969/4 - 1969/100 + 1969/400) * 86400
 
 func (e *Exec) nonneg(name string) *Term {
 	t := e.input(name, SInt)
+	t.NN = true
 	e.addPC(e.tt.IntCmp(">=", t, e.tt.Int64(0)))
 	return t
 }
@@ -37,6 +38,9 @@ func (e *Exec) truncDiv(t *Term, p *big.Int) *Term {
 		return e.tt.Int(new(big.Int).Quo(t.Big, p))
 	}
 	pc := e.tt.Int(p)
+	if e.tt.NonNeg(t) {
+		return e.tt.IntBin("div", t, pc)
+	}
 	neg := e.tt.IntCmp("<", t, e.tt.Int64(0))
 	q := e.tt.IntBin("div", t, pc)
 	qn := e.neg(e.tt.IntBin("div", e.neg(t), pc))
@@ -48,6 +52,14 @@ func (e *Exec) chop(t *Term) *Term {
 	if t.IsConst() {
 		return e.tt.Int(chopBig(t.Big))
 	}
+	// x * 10^18 / 10^18 == x (multiplication by the decimal one)
+	if t.Op == "*" {
+		for i := 0; i < 2; i++ {
+			if c := t.Args[i]; c.IsConst() && c.Big.Cmp(prec) == 0 {
+				return t.Args[1-i]
+			}
+		}
+	}
 	p := e.tt.Int(prec)
 	h := e.tt.Int(new(big.Int).Div(prec, big.NewInt(2)))
 	pos := func(x *Term) *Term {
@@ -56,6 +68,9 @@ func (e *Exec) chop(t *Term) *Term {
 		up := e.tt.IntBin("+", q, e.tt.Int64(1))
 		even := e.tt.Eq(e.tt.IntBin("mod", q, e.tt.Int64(2)), e.tt.Int64(0))
 		return e.tt.Ite(e.tt.IntCmp("<", r, h), q, e.tt.Ite(e.tt.IntCmp(">", r, h), up, e.tt.Ite(even, q, up)))
+	}
+	if e.tt.NonNeg(t) {
+		return pos(t)
 	}
 	neg := e.tt.IntCmp("<", t, e.tt.Int64(0))
 	return e.tt.Ite(neg, e.neg(pos(e.neg(t))), pos(t))
